@@ -16,7 +16,8 @@
 (***************************************************************************)
 EXTENDS Integers, Sequences, FiniteSets, TLC
 
-CONSTANTS RefLock, Setups, Combos
+CONSTANTS RefLock, Setups, Combos,
+          GCWaits      \* TRUE: the collection waits for the requests in flight (the code); FALSE: sanity variant
 
 None == "none"
 NoResp == <<"noresp">>                    \* no referrers response entry for the subject
@@ -38,6 +39,9 @@ TagsL     == [k |-> "Tags", d |-> None, t |-> None, s |-> None]
 BPut(b)   == [k |-> "BlobPut", d |-> b, t |-> None, s |-> None]     \* monolithic upload POST ?digest=
 BDel(b)   == [k |-> "BlobDel", d |-> b, t |-> None, s |-> None]
 BGet(b)   == [k |-> "BlobGet", d |-> b, t |-> None, s |-> None]
+\* a collection of the repository (internal/store: gc()), policy of the episodes that contain one: untagged manifests and
+\* unreferenced blobs go at once (no grace period), referrers stay (ReferrersDangling and ReferrersWithSubj off)
+GCReq     == [k |-> "GC", d |-> None, t |-> None, s |-> None]
 
 \* the abstract index: tag -> digest, digests with an entry, subject -> list held by its referrers response
 Ix(tags, mans, resp) == [tags |-> tags, mans |-> mans, resp |-> resp]
@@ -63,11 +67,13 @@ SetupState(s) ==
 VARIABLES setup, reqs,      \* the episode
           ix, mblobs, rblobs, cache, lock,
           bblobs,           \* plain blobs present
+          token,            \* the collection token of the repository (wgBlock): TRUE = available
+          holders,          \* requests between RepoGet and Done (the repository's wait group)
           procs,            \* per request: pc, locals, result, invocation / return time
           clock,
           sched             \* history: the store calls in the order they were executed, <<process, call>>
-vars == <<setup, reqs, ix, mblobs, rblobs, cache, lock, bblobs, procs, clock, sched>>
-View == <<setup, reqs, ix, mblobs, rblobs, cache, lock, bblobs, [i \in DOMAIN procs |-> [procs[i] EXCEPT !.inv = 0, !.ret = 0]],
+vars == <<setup, reqs, ix, mblobs, rblobs, cache, lock, bblobs, token, holders, procs, clock, sched>>
+View == <<setup, reqs, ix, mblobs, rblobs, cache, lock, bblobs, token, holders, [i \in DOMAIN procs |-> [procs[i] EXCEPT !.inv = 0, !.ret = 0]],
           \* the order of invocations and returns is all the real time order needs
           {<<i, j>> \in (DOMAIN procs) \X (DOMAIN procs) : procs[i].ret # 0 /\ procs[j].inv # 0 /\ procs[i].ret < procs[j].inv},
           {i \in DOMAIN procs : procs[i].inv # 0}>>
@@ -76,14 +82,19 @@ P0 == [pc |-> "RepoGet", n |-> 0, snap |-> Ix(<<>>, {}, <<>>), old |-> <<>>, new
 
 Init == /\ setup \in Setups /\ reqs \in Combos
         /\ LET s == SetupState(setup) IN ix = s.ix /\ mblobs = s.mblobs /\ rblobs = s.rblobs
-        /\ cache = {} /\ lock = 0 /\ clock = 0 /\ sched = <<>> /\ bblobs = {"b1", "b2", "b3"}
+        /\ cache = {} /\ lock = 0 /\ clock = 0 /\ sched = <<>> /\ bblobs = {"b1", "b2", "b3"} /\ token = TRUE /\ holders = 0
         /\ procs = [i \in DOMAIN reqs |-> P0]
 
 \* one store call of process i: new locals p, the call's name, and the changes to the shared state
 AcqPc == {"Acq:IndexInsert", "Acq:MBlobGet"}
 Unacq(pc) == IF pc = "Acq:IndexInsert" THEN "IndexInsert" ELSE "MBlobGet"
 \* w # 0: this call releases the mutex and process w, which was waiting for it, gets it
+\* RepoGet takes the token, raises the wait group and puts the token back (one store call): it waits while a collection
+\* holds the token; Done lowers the wait group
 CallW(i, name, p, w) ==
+  /\ (name = "RepoGet" => token)
+  /\ holders' = IF name = "RepoGet" THEN holders + 1 ELSE IF name = "Done" THEN holders - 1 ELSE holders
+  /\ UNCHANGED token
   /\ clock' = clock + 1
   /\ LET q == [procs EXCEPT ![i] = [p EXCEPT !.inv = IF procs[i].inv = 0 THEN clock + 1 ELSE procs[i].inv,
                                                !.ret = IF p.pc = "End" THEN clock + 1 ELSE 0]]
@@ -195,10 +206,30 @@ BlobSteps(i, r, p) ==
      /\ bblobs' = bblobs \ {r.d} /\ UNCHANGED <<ix, mblobs, rblobs, cache, lock>>
   \/ /\ p.pc = "BlobGet" /\ r.k = "BlobGet" /\ Call(i, "BlobGet", [p EXCEPT !.pc = "Done", !.st = IF r.d \in bblobs THEN 200 ELSE 404]) /\ Same
 
+\* the collection: take the token (new requests wait from now on), wait for the requests in flight, collect, put the token back
+KeepM(x, tg) == {d \in x : d \in {tg[t] : t \in DOMAIN tg} \/ SubjOf[d] # None}
+GCSteps(i, r, p) ==
+  \/ /\ p.pc = "RepoGet" /\ token
+     /\ token' = FALSE
+     /\ procs' = [procs EXCEPT ![i] = [p EXCEPT !.pc = "GCRun", !.inv = clock + 1]]
+     /\ clock' = clock + 1 /\ sched' = Append(sched, <<i, "gc:take">>)
+     /\ UNCHANGED <<setup, reqs, ix, mblobs, rblobs, cache, lock, bblobs, holders>>
+  \/ /\ p.pc = "GCRun" /\ (GCWaits => holders = 0)
+     /\ LET keep == KeepM(ix.mans, ix.tags) IN
+        /\ ix' = [ix EXCEPT !.mans = keep]
+        /\ mblobs' = mblobs \cap keep
+        /\ bblobs' = bblobs \cap UNION {SetOf(RefsOf[d]) : d \in keep}
+        /\ rblobs' = rblobs \cap {ix.resp[s] : s \in Subjects}
+     /\ token' = TRUE
+     /\ procs' = [procs EXCEPT ![i] = [p EXCEPT !.pc = "End", !.st = 200, !.ret = clock + 1]]
+     /\ clock' = clock + 1 /\ sched' = Append(sched, <<i, "gc:run">>)
+     /\ UNCHANGED <<setup, reqs, cache, lock, holders>>
+
 Step(i) ==
   LET r == reqs[i]
       p == procs[i]
-  IN \/ (r.k \in {"BlobPut", "BlobDel", "BlobGet"} /\ BlobSteps(i, r, p))
+  IN \/ (r.k = "GC" /\ GCSteps(i, r, p))
+     \/ (r.k \in {"BlobPut", "BlobDel", "BlobGet"} /\ BlobSteps(i, r, p))
      \/ (r.k = "Put" /\ PutSteps(i, r, p))
      \/ (r.k = "Del" /\ DelSteps(i, r, p))
      \/ (r.k \in {"Refs", "Get", "Tags"} /\ ReadSteps(i, r, p))
@@ -217,6 +248,8 @@ SeqApply(st, r) ==
          [ix |-> [st EXCEPT !.tags = IF r.t = None THEN st.tags ELSE With(st.tags, r.t, r.d), !.mans = st.mans \cup {r.d},
                   !.refs = IF SubjOf[r.d] = None THEN st.refs ELSE [st.refs EXCEPT ![SubjOf[r.d]] = @ \cup {r.d}]],
           st |-> 201, res |-> {}]
+    [] r.k = "GC" -> LET keep == KeepM(st.mans, st.tags) IN
+                     [ix |-> [st EXCEPT !.mans = keep, !.blobs = @ \cap UNION {SetOf(RefsOf[d]) : d \in keep}], st |-> 200, res |-> {}]
     [] r.k = "BlobPut" -> [ix |-> [st EXCEPT !.blobs = @ \cup {r.d}], st |-> 201, res |-> {}]
     [] r.k = "BlobDel" -> IF r.d \in st.blobs THEN [ix |-> [st EXCEPT !.blobs = @ \ {r.d}], st |-> 202, res |-> {}]
                           ELSE [ix |-> st, st |-> 404, res |-> {}]
